@@ -4,16 +4,25 @@ use crate::common::*;
 use coap_lite::{create_notification, CoapRequest, Subject};
 use std::panic::{catch_unwind, AssertUnwindSafe};
 
-fn request(e: u64, path: &[u8], tok: &[u8], mid: u16) -> CoapRequest<u64> {
-    let mut r: CoapRequest<u64> = CoapRequest::new();
-    r.source = Some(e);
+/// an endpoint type whose printed form is NOT injective (like a socket address whose flow label is not printed):
+/// identity is the whole number, Display shows it modulo 256
+#[derive(Clone, PartialEq, Debug)]
+pub struct Peer(pub u64);
+impl std::fmt::Display for Peer { fn fmt(&self, f: &mut std::fmt::Formatter<'_>) -> std::fmt::Result { write!(f, "peer{}", self.0 % 256) } }
+
+/// a request whose registry key (get_path) is exactly `path`: one Uri-Path option per '/'-separated segment, empty ones
+/// included (so "/a" has the segments "", "a")
+fn request(e: u64, path: &[u8], tok: &[u8], mid: u16) -> CoapRequest<Peer> {
+    let mut r: CoapRequest<Peer> = CoapRequest::new();
+    r.source = Some(Peer(e));
     r.message.set_token(tok.to_vec());
     r.message.header.message_id = mid;
-    r.set_path(std::str::from_utf8(path).unwrap());
+    if !path.is_empty() { for seg in path.split(|&b| b == b'/') { r.message.add_option(coap_lite::CoapOption::UriPath, seg.to_vec()); } }
+    assert_eq!(r.get_path().as_bytes(), path);
     r
 }
 
-fn dump(out: &mut Vec<u64>, s: &Subject<u64>, paths: &[Vec<u8>]) {
+fn dump(out: &mut Vec<u64>, s: &Subject<Peer>, paths: &[Vec<u8>]) {
     out.push(7);
     let present: Vec<&Vec<u8>> = paths.iter().filter(|p| s.get_resource(std::str::from_utf8(p).unwrap()).is_some()).collect();
     out.push(present.len() as u64);
@@ -26,7 +35,7 @@ fn dump(out: &mut Vec<u64>, s: &Subject<u64>, paths: &[Vec<u8>]) {
         assert_eq!(obs.len(), r.observers.len());
         out.push(obs.len() as u64);
         for o in obs {
-            out.push(o.endpoint);
+            out.push(o.endpoint.0);
             wr_bytes(out, &o.token);
             out.push(o.verif_unacknowledged() as u64);
             out.push(match o.verif_pending_message_id() { Some(m) => m as u64 + 1, None => 0 });
@@ -37,7 +46,7 @@ fn dump(out: &mut Vec<u64>, s: &Subject<u64>, paths: &[Vec<u8>]) {
 pub fn exec140(input: &[u64]) -> Vec<u64> {
     let mut c = Cur::new(input);
     let n = c.n();
-    let mut s: Subject<u64> = Subject::default();
+    let mut s: Subject<Peer> = Subject::default();
     let mut paths: Vec<Vec<u8>> = Vec::new();   // in order of first registration
     let mut out = Vec::new();
     for _ in 0..n {
@@ -47,7 +56,10 @@ pub fn exec140(input: &[u64]) -> Vec<u64> {
                 0 => { let e = c.n(); let p = c.bytes(); let t = c.bytes(); if !paths.contains(&p) { paths.push(p.clone()); } s.register(&request(e, &p, &t, 0)); }
                 1 => { let e = c.n(); let p = c.bytes(); let t = c.bytes(); s.deregister(&request(e, &p, &t, 0)); }
                 2 => { let p = c.bytes(); let mid = c.n() as u16; let conf = c.n() != 0; s.resource_changed(std::str::from_utf8(&p).unwrap(), mid, conf); }
-                3 => { let e = c.n(); let mid = c.n() as u16; s.acknowledge(&request(e, b"", b"", mid)); }
+                3 => { let e = c.n(); let mid = c.n() as u16;
+                       // an acknowledgement is matched by endpoint and message id; whatever path it carries is immaterial
+                       let ap: Vec<u8> = match (e + mid as u64) % 4 { 0 => vec![], 1 => b"x/y".to_vec(), 2 => paths.first().cloned().unwrap_or_default(), _ => { let mut p = paths.last().cloned().unwrap_or_default(); p.extend_from_slice(b"/"); p } };
+                       s.acknowledge(&request(e, &ap, b"", mid)); }
                 4 => { let l = c.n() as u8; s.set_unacknowledged_limit(l); }
                 5 => { let p = c.bytes(); let q = c.n() as u32; s.verif_set_sequence(std::str::from_utf8(&p).unwrap(), q); }
                 _ => panic!("bad op"),
@@ -124,6 +136,22 @@ pub fn gen140(tier: &str, r: &mut Rng, emit: &mut dyn FnMut(Vec<u64>)) {
             while k > 0 { k -= 1; idx[k] += 1; if idx[k] < n { break; } idx[k] = 0; if k == 0 { k = usize::MAX; break; } }
             if k == usize::MAX { break; }
         }
+    }
+    // resources whose keys differ only by a leading '/', endpoints whose printed form coincides (1 and 257)
+    for _ in 0..(if thorough { 2000 } else { 200 }) {
+        let ps: [Vec<u8>; 4] = [b"t".to_vec(), b"/t".to_vec(), b"t/".to_vec(), b"//t".to_vec()];
+        let es = [1u64, 257, 2, 513];
+        let ops: Vec<Op> = (0..40).map(|_| {
+            let e = r.pick(&es); let p = ps[r.below(4) as usize].clone();
+            let t = vec![r.below(2) as u8];
+            match r.below(10) {
+                0..=3 => Op::Reg(e, p, t), 4 => Op::Dereg(e, p, t),
+                5..=7 => Op::Changed(p, r.below(3) as u16, r.chance(2, 3)),
+                8 => Op::Ack(e, r.below(3) as u16),
+                _ => Op::Limit(1 + r.below(3) as u8),
+            }
+        }).collect();
+        emit(write_ops(&ops));
     }
     // seeded random histories of length 200 over larger alphabets
     for _ in 0..(if thorough { 3000 } else { 300 }) {
